@@ -8,5 +8,5 @@ Local Open Scope N_scope.
 Lemma pol_check_dead (pol r : N) : (pol <? 1) && ((0 <? pol) || (r <? pol)) = false.
 Proof.
   destruct (pol <? 1) eqn:E; [|reflexivity]. apply N.ltb_lt in E.
-  assert (pol = 0) by lia. subst. reflexivity.
+  assert (pol = 0) by lia. subst. cbn. destruct r; reflexivity.
 Qed.
